@@ -457,6 +457,20 @@ func cmdCheck(prop, tier string) int {
 			}
 			all = append(all, g.obls...)
 		}
+		// package invariants are monotone in the allocation map
+		if len(sc) > 0 {
+			pkgs := map[string]*ssa.Function{}
+			for _, f := range sc {
+				if f.Pkg != nil && e.participates(f) {
+					if _, ok := pkgs[f.Pkg.Pkg.Path()]; !ok {
+						pkgs[f.Pkg.Pkg.Path()] = f
+					}
+				}
+			}
+			for pp, f := range pkgs {
+				all = append(all, allocMonotoneLemmas(e, pp, f)...)
+			}
+		}
 		// lemmas
 		ls := lemmaObligations(e, prop)
 		lemmaCount += len(ls)
